@@ -393,6 +393,7 @@ def monStep (c : Cfg) (m : MonSt) (op : Op) (out : Out) : MonSt × Option String
               if o.ld != m.prevLd && o.ld != 0 then
                 if o.lt.toNat != o.term % 65536 then some "lease-term-bits-wrong"
                 else if !ghostOk then none
+                else if fresh.length < peersNeeded c.n then some "lease-renewed-with-fewer-than-majority-acks"
                 else if renewalFresh c.n c.leaseDur.toNat (fresh.map (·.2)) o.ld.toNat then none
                 else some "lease-renewed-without-fresh-majority-round"
               else none
